@@ -85,6 +85,9 @@ class Engine:
         self.call_stack = []
         self.frame_writes = None
         self.store_eqs = []
+        self.taint = set()          # names of z3 constants standing for a symbolic weight (C16 non-interference)
+        self.taint_hits = []
+        self._taint_cache = {}
         self.ghost = "x"
         self.apply_w_stack = []
         self.loop_pre = []
@@ -143,11 +146,32 @@ class Engine:
                 model = None
         self.solver.pop()
         self.last_backend = "z3-" + z3.get_version_string()
+        if r == z3.sat and portfolio and not self._model_ok(model, extra):
+            # z3 occasionally answers `sat` with a model that does not satisfy the query (is_int / to_int mixed
+            # with non-linear terms): such an answer is treated as "no answer"
+            r, model = z3.unknown, None
+            self.stats["bogus_sat"] = self.stats.get("bogus_sat", 0) + 1
         if r == z3.unknown and portfolio:
             r, model = self._portfolio(extra)
         self.stats["solver_calls"] += 1
         self.stats["solver_time"] += time.time() - t0
         return r, model
+
+    def _model_ok(self, model, extra):
+        """does the counter-model really satisfy the path condition, the lemma instances and the negated goal?"""
+        if model is None:
+            return False
+        try:
+            for a in list(self.solver.assertions()) + list(extra):
+                v = model.eval(a, model_completion=True)
+                if not z3.is_true(v):
+                    if z3.is_false(v):
+                        return False
+                    # quantified / non-ground residue: cannot validate, do not reject on that account
+                    continue
+            return True
+        except z3.Z3Exception:
+            return False
 
     def _portfolio(self, extra):
         """second opinions for a query the incremental solver left open: a fresh one-shot z3 solver (different
@@ -175,8 +199,8 @@ class Engine:
                 self.last_backend = name
                 return z3.unsat, None
             if out == "sat":
-                self.last_backend = name
-                return z3.sat, None
+                # no model to validate: the obligation stays open (never reported as refuted on this basis)
+                continue
         return z3.unknown, None
 
     def feasible(self, f):
@@ -244,8 +268,11 @@ class Engine:
             r2, _ = self._check(goal)
             rec["canary"] = (r2 != z3.unsat)
             if r2 == z3.unsat:
-                self.results.append(rec)
-                raise VerifBug("vacuous context at %s" % name)
+                # the path condition is contradictory (an infeasible branch that the solver first took for feasible):
+                # nothing proved on this path counts; the path is dropped and counted
+                self.stats["vacuous_paths"] = self.stats.get("vacuous_paths", 0) + 1
+                self.results = [x for x in self.results if not x["name"].endswith("#p%d" % self.stats["paths"])]
+                raise PathInfeasible()
         self.results.append(rec)
         # continue the path under the assumption that the goal holds (standard assert-then-assume);
         # a goal that failed is not assumed (it could make the rest of the path vacuous)
@@ -539,6 +566,7 @@ class Engine:
                 r = (not r) if isinstance(r, bool) else z3.Not(r)
             return r
         # ordering
+        self.taint_use("ordering comparison on the symbolic weight", a, b)
         if self._isres(a) or self._isres(b):
             if not (self._isres(a) and self._isres(b)):
                 raise Unsupported("ordering between a result and a non-result")
@@ -570,6 +598,38 @@ class Engine:
         if isinstance(op, ast.GtE):
             return x >= y
         raise Unsupported("compare %s" % type(op).__name__)
+
+    # ------------------------------------------------------------------ non-interference of the weight (C16)
+    def tainted(self, v):
+        """does the value depend on a symbolic weight?"""
+        if not self.taint:
+            return False
+        e = v.e if isinstance(v, SV) else (v if z3.is_expr(v) else None)
+        if e is None:
+            return False
+        todo, seen = [e], set()
+        while todo:
+            t = todo.pop()
+            i = t.get_id()
+            if i in seen:
+                continue
+            seen.add(i)
+            if i in self._taint_cache:
+                if self._taint_cache[i]:
+                    return True
+                continue
+            if z3.is_const(t) and t.decl().kind() == z3.Z3_OP_UNINTERPRETED and t.decl().name() in self.taint:
+                self._taint_cache[e.get_id()] = True
+                return True
+            todo.extend(t.children())
+        self._taint_cache[e.get_id()] = False
+        return False
+
+    def taint_use(self, what, *vals):
+        """record a use of a tainted value that is not a ring operation or a zero test"""
+        if self.taint and not self.spec and any(self.tainted(v) for v in vals):
+            where = self.call_stack[-1] if self.call_stack else "?"
+            self.taint_hits.append("%s in %s" % (what, where))
 
     def _isres(self, v):
         return isinstance(v, LS.OptRid) or (isinstance(v, SV) and v.t == "rid")
